@@ -59,19 +59,35 @@ fn big(sel: u16, wide: u8) -> u32 {
 }
 
 fn seq_strategy() -> BoxedStrategy<Case> {
-  vec((any::<u16>(), any::<u8>(), 0u8..6u8, (any::<u16>(), any::<u8>()), (any::<u16>(), any::<u8>()), (any::<u16>(), any::<u8>()), (0u8..4u8, any::<u16>(), any::<u8>())), 0..=10)
-    .prop_map(|v| {
+  (
+    // a small pool of original locations that segments keep coming back to (alternations such as
+    // L, unmapped, L or L, L+name, L are what the encoder's skip rules are about)
+    vec(((any::<u16>(), any::<u8>()), (any::<u16>(), any::<u8>()), (any::<u16>(), any::<u8>()), (0u8..4u8, any::<u16>(), any::<u8>())), 1..=3),
+    vec((any::<u16>(), any::<u8>(), 0u8..6u8, 0u8..10u8, any::<bool>(), ((any::<u16>(), any::<u8>()), (any::<u16>(), any::<u8>()), (any::<u16>(), any::<u8>()))), 0..=10),
+  )
+    .prop_map(|(pool, v)| {
+      let pool: Vec<Orig> = pool
+        .into_iter()
+        .map(|(src, ol, oc, nm)| Orig {
+          src: big(src.0, src.1 % 22),
+          line: 1 + big(ol.0, ol.1),
+          col: big(oc.0, oc.1),
+          name: if nm.0 == 0 { None } else { Some(big(nm.1, nm.2 % 22)) },
+        })
+        .collect();
       let mut out: Vec<Seg> = vec![];
       let (mut l, mut c) = (1u32, 0u32);
-      for (k, (cs, cw, step, src, ol, oc, nm)) in v.into_iter().enumerate() {
+      for (k, (cs, cw, step, pick, flip_name, fresh)) in v.into_iter().enumerate() {
         match step {
-          0 | 1 => {
+          0 => {
             l += 1 + (cs as u32 % 3) + if cw == 0 { 200 } else { 0 };
             c = if cs % 2 == 0 { 0 } else { big(cs, cw) };
           }
           _ => {
             if k > 0 {
-              c = c.saturating_add(1 + big(cs, cw)).min(1 << 30);
+              // mostly small steps (so that several segments share a line), sometimes wide ones
+              let d = if step < 4 { 1 + (cs as u32 % 3) } else { 1 + big(cs, cw) };
+              c = c.saturating_add(d).min(1 << 30);
               if out.last().is_some_and(|s: &Seg| s.line == l && s.col >= c) {
                 l += 1;
                 c = 0;
@@ -79,31 +95,64 @@ fn seq_strategy() -> BoxedStrategy<Case> {
             }
           }
         }
-        let orig = if step == 5 {
-          None
-        } else {
-          Some(Orig {
-            src: big(src.0, src.1 % 22),
-            line: 1 + big(ol.0, ol.1),
-            col: big(oc.0, oc.1),
-            name: if nm.0 == 0 { None } else { Some(big(nm.1, nm.2 % 22)) },
-          })
+        let orig = match pick {
+          0 | 1 => None,
+          2..=7 => {
+            let mut o = pool[(pick as usize - 2) % pool.len()];
+            if flip_name {
+              o.name = match o.name {
+                Some(_) => None,
+                None => Some(0),
+              };
+            }
+            Some(o)
+          }
+          _ => Some(Orig { src: big(fresh.0 .0, fresh.0 .1 % 22), line: 1 + big(fresh.1 .0, fresh.1 .1), col: big(fresh.2 .0, fresh.2 .1), name: None }),
         };
         out.push(Seg { line: l, col: c, orig });
       }
-      // repeats of the active location, to exercise the drop rule
-      let mut with_repeats = vec![];
-      for s in out {
-        with_repeats.push(s);
-        if s.col % 5 == 0 && s.col < (1 << 30) {
-          with_repeats.push(Seg { col: s.col + 1, orig: s.orig.map(|o| Orig { name: if s.col % 2 == 0 { None } else { o.name }, ..o }), ..s });
-        }
-      }
-      with_repeats.sort_by_key(|s| (s.line, s.col));
-      with_repeats.dedup_by_key(|s| (s.line, s.col));
-      Case::Seq(with_repeats)
+      out.sort_by_key(|s| (s.line, s.col));
+      out.dedup_by_key(|s| (s.line, s.col));
+      Case::Seq(out)
     })
     .boxed()
+}
+
+/// every sequence of up to 5 segments over {unmapped, A, A+name0, A+name1, B} x {same line, new line}
+fn small_sequences() -> Box<dyn Iterator<Item = Case> + Send> {
+  let a = Orig { src: 0, line: 1, col: 0, name: None };
+  let kinds: [Option<Orig>; 5] =
+    [None, Some(a), Some(Orig { name: Some(0), ..a }), Some(Orig { name: Some(1), ..a }), Some(Orig { src: 1, line: 2, col: 4, name: None })];
+  let mut all: Vec<Vec<(bool, usize)>> = vec![vec![]];
+  let mut level: Vec<Vec<(bool, usize)>> = vec![vec![]];
+  for _ in 0..5 {
+    let mut next = vec![];
+    for s in &level {
+      for nl in [false, true] {
+        for k in 0..5 {
+          let mut t = s.clone();
+          t.push((nl, k));
+          next.push(t);
+        }
+      }
+    }
+    all.extend(next.iter().cloned());
+    level = next;
+  }
+  Box::new(all.into_iter().map(move |seq| {
+    let (mut l, mut c) = (1u32, 0u32);
+    let mut out = vec![];
+    for (i, (nl, k)) in seq.into_iter().enumerate() {
+      if nl {
+        l += 1;
+        c = 0;
+      } else if i > 0 {
+        c += 2;
+      }
+      out.push(Seg { line: l, col: c, orig: kinds[k] });
+    }
+    Case::Seq(out)
+  }))
 }
 
 fn spelled_strategy() -> BoxedStrategy<Case> {
@@ -207,10 +256,11 @@ impl Prop for C12 {
   type Case = Case;
   const ID: &'static str = "C12";
   fn rule(&self) -> String {
-    "leg 1: sorted mapping sequences (0-10 segments plus repeats of the active location) with columns, source/name \
+    "leg 1: sorted mapping sequences (0-10 segments drawing their original location from a pool of 1-3 locations, with names \
+     flipped on and off, or unmapped, or fresh) with columns, source/name \
      indices, original lines/columns and their deltas spread over every VLQ digit count up to 2^30, both signs, 1-/4-/5-field, \
      empty lines and gaps; leg 2 (exhaustive): for each of the five fields every delta d with |d| < 2^18 (quick) / 2^20 \
-     (thorough) realised by a two-segment sequence; leg 3: well-formed strings written by an independent encoder with \
+     (thorough) realised by a two-segment sequence; leg 2b (exhaustive): every sequence of <=5 segments over {unmapped, A, A+name0, A+name1, B} x {same line, new line}; leg 3: well-formed strings written by an independent encoder with \
      redundant continuation digits, empty segments, runs of ';' and columns going backwards. Oracle: independent v3 \
      decoder/encoder + drop rule + line-only rule. Non-trivial: a delta of magnitude >= 16 (crosses a VLQ digit boundary) \
      or a negative delta, or (leg 3) a redundant digit / empty segment; distinct by hash of the case JSON".into()
@@ -228,6 +278,7 @@ impl Prop for C12 {
           }))
         })),
       },
+      Leg { name: "every sequence of <=5 segments over a 5-letter alphabet (exhaustive)", source: Cases::Enumerated(Box::new(|_| small_sequences())) },
       Leg { name: "unusual spellings", source: Cases::Generated(Box::new(spelled_strategy), 400_000, 4_000_000) },
     ]
   }
